@@ -259,14 +259,16 @@ def run_sample(case):
 
 # ------------------------------------------------------------------------------------------ 5
 BIN = ["add", "sub", "mul", "div", "pow", "radd", "rsub", "rmul", "rdiv", "np.add", "np.multiply", "np.subtract",
-       "np.rsubtract", "np.rdivide", "rsub", "rdiv"]
+       "np.rsubtract", "np.rdivide", "rsub", "rdiv", "pow", "pow", "pow", "rpow", "rpow"]
 UN = ["neg", "np.sqrt", "np.exp", "np.log", "np.sin", "np.square"]
 
 
 def expr(depth):
     leaf_p = st.integers(0, 2).map(lambda i: {"t": "p", "i": i})
     # numbers are python floats or numpy scalars (what indexing an array yields)
-    leaf_n = st.tuples(gen.rounded(0.5, 3.0, 3), st.booleans()).map(lambda t: {"t": "n", "v": t[0], "np": t[1]})
+    leaf_n = st.one_of(st.tuples(gen.rounded(0.5, 3.0, 3), st.booleans()).map(lambda t: {"t": "n", "v": t[0], "np": t[1]}),
+                       # exact integers, also negative (exponents) and large
+                       st.sampled_from([-2, -1, 2, 3, 41]).map(lambda v: {"t": "n", "v": v, "np": False}))
     if depth == 0:
         return leaf_p
     sub = expr(depth - 1)
@@ -276,7 +278,7 @@ def expr(depth):
 
 
 def strat_alg(tier):
-    pos = st.tuples(gen.rounded(0.5, 2.0, 3), gen.rounded(0.1, 1.0, 3), st.sampled_from(["uniform", "gaussian_narrow", "bounded"]))
+    pos = st.tuples(gen.rounded(0.5, 2.0, 3), gen.rounded(0.1, 1.0, 3), st.sampled_from(["uniform", "gaussian_narrow", "bounded", "uniform_int_guess", "gaussian_int_mean"]))
     return st.fixed_dictionaries({"pool": st.lists(pos, min_size=3, max_size=3).map(lambda l: [list(t) for t in l]),
                                   "e": expr(3), "seed": st.integers(0, 2 ** 32 - 1), "size": st.sampled_from([None, 1, 5])})
 
@@ -287,6 +289,11 @@ def _pool_prior(t):
     # positive supports so that sqrt/log/pow/div are defined
     if kind == "uniform":
         return prior.Uniform(a, a + w)
+    if kind == "uniform_int_guess":
+        # the guess is an exact python integer
+        return prior.Uniform(1, 5, guess=int(2 + round(a)))
+    if kind == "gaussian_int_mean":
+        return prior.BoundedGaussian(int(2 + round(a)), 0.05 * w, 1, 6)
     if kind == "bounded":
         return prior.BoundedGaussian(a + w / 2, w, a, a + w)
     return prior.BoundedGaussian(a + 1.0, w * 0.05, a + 0.5, a + 1.5)
@@ -310,6 +317,7 @@ def build_expr(e, pool):
     if op == "mul": return a * b
     if op == "div": return a / b
     if op == "pow": return a ** b
+    if op == "rpow": return b ** a
     if op == "radd": return b + a
     if op == "rsub": return b - a
     if op == "rmul": return b * a
@@ -347,6 +355,7 @@ def eval_expr(e, leafval):
     if op == "div": return a / b
     if op in ("rdiv", "np.rdivide"): return b / a
     if op == "pow": return a ** b
+    if op == "rpow": return b ** a
     return a - b
 
 
@@ -355,6 +364,17 @@ def run_alg(case):
     pool = [_pool_prior(t) for t in case["pool"]]
     e = case["e"]
     labels = ["depth_%d" % _depth(e)]
+    # keep clear of expressions whose exact integer value is astronomically large (41 ** 3 ** 41 ...): evaluate once
+    # in floating point, where overflow is an immediate OverflowError
+    def _floaty(x):
+        return float(x) if isinstance(x, (int, np.integer)) and not isinstance(x, bool) else x
+    try:
+        with np.errstate(all="ignore"):
+            probe = eval_expr(_float_leaves(e), lambda i: float(pool[i].guess))
+        if not isinstance(probe, complex) and np.isfinite(probe) and abs(probe) > 1e60:
+            return Outcome(None, False, labels + ["domain_error"], skipped=True)
+    except (ZeroDivisionError, OverflowError, ValueError):
+        return Outcome(None, False, labels + ["domain_error"], skipped=True)
     try:
         d = build_expr(e, pool)
     except TypeError as ex:
@@ -369,6 +389,11 @@ def run_alg(case):
             want_g = eval_expr(e, lambda i: pool[i].guess)
     except (ZeroDivisionError, OverflowError):
         return Outcome(None, False, labels + ["domain_error"], skipped=True)
+    except ValueError as ex:
+        if "negative integer powers" in str(ex):
+            # numpy's own rule for integer arrays/scalars (reached through np.square etc. of an integer guess)
+            return Outcome(None, False, labels + ["domain_error"], skipped=True)
+        raise
     if isinstance(want_g, complex) or not np.isfinite(want_g):
         return Outcome(None, False, labels + ["domain_error"], skipped=True)
     with np.errstate(all="ignore"):
@@ -415,6 +440,17 @@ def run_alg(case):
         return Outcome(failure("derived_structure", "derived prior evaluates to %r on fixed leaf values, expression gives %r" % (b, a)), True, labels)
     nontrivial = _depth(e) >= 2
     return Outcome(None, nontrivial, labels)
+
+
+def _float_leaves(e):
+    if e["t"] == "n":
+        return dict(e, v=float(e["v"]), np=False)
+    if e["t"] == "p":
+        return e
+    out = dict(e, a=_float_leaves(e["a"]))
+    if "b" in e:
+        out["b"] = _float_leaves(e["b"])
+    return out
 
 
 def _depth(e):
